@@ -43,12 +43,15 @@ def run(ctx):
     res = ctx.tlc("MatrixCalculus", "MatrixCalculus.cfg", workers=8, timeout=3000, label="tables", json_out=dcases,
                   consts=dconsts, heap="4g")
     kinds, fams = {}, {}
-    o2inv = ntri = 0
+    o2inv = ntri = zero_j = zero_h = 0
     samples = {}
     for c in vlib.iter_ndjson(dcases):
         kinds[c["k"]] = kinds.get(c["k"], 0) + 1
         key = "%s%d" % (c["fam"], c["n"])
         fams[key] = fams.get(key, 0) + 1
+        if c["k"] == "poly":
+            zero_j += 1 if c["zj"] > 0 else 0
+            zero_h += 1 if c["zh"] > 0 else 0
         if c["k"] == "dmat":
             o2inv += 1 if c["d2inv"] else 0
             ntri += 1 if c["tri"] else 0
@@ -61,6 +64,8 @@ def run(ctx):
     for k in ("g2", "g3", "pd3", "q44", "spd2", "spd3", "spd4"):
         if fams.get(k, 0) == 0:
             raise vlib.Infra("vacuity: no derivative case of family " + k)
+    if zero_j == 0 or zero_h == 0:
+        raise vlib.Infra("vacuity: no polynomial case with an exactly-zero partial derivative (jac %d, hess %d)" % (zero_j, zero_h))
     if o2inv == 0 or ntri == 0:
         raise vlib.Infra("vacuity: order-2 inverse cases=%d triangular cases=%d" % (o2inv, ntri))
     # 2. matrices for the fast-vs-generic comparison
@@ -82,6 +87,10 @@ def run(ctx):
     for st in ("fresh", "slice_o1", "slice_o2", "computed_o1", "computed_o2", "sameN_o1", "sameN_o2"):
         if cnt.get("point_state:" + st, 0) == 0:
             raise vlib.Infra("vacuity: evaluation-point state %s never reached the Jacobian/Hessian helpers" % st)
+    for ty in ("f64", "f32", "r64", "r32", "int", "i64", "i32", "i16"):
+        for ms in ("fresh", "junk", "reused"):
+            if cnt.get("result_matrix:%s:%s" % (ty, ms), 0) == 0:
+                raise vlib.Infra("vacuity: no Jacobian/Hessian call with a %s result matrix of type %s" % (ms, ty))
     for k in ("agree:cholesky/default:ok", "agree:cholesky/default:error", "agree:cholesky/ldl:ok", "agree:cholesky/ldl:error",
               "agree:cholesky/ldl+forcepd:ok", "agree:cholesky/ldl+forcepd+insitu_dirty/D:ok", "agree:cholesky/forcepd:ok"):
         if cnt2.get(k, 0) == 0:
@@ -102,18 +111,24 @@ def run(ctx):
     ctx.extra["replay"] = {"derivative_cases": kinds, "derivative_families": fams, "order2_inverse_cases": o2inv,
                            "triangular_derivative_cases": ntri, "fast_vs_generic_matrices": total2["cases"],
                            "point_states": {k: v for k, v in cnt.items() if k.startswith("point_state")},
+                           "result_matrix_states": {k[14:]: v for k, v in cnt.items() if k.startswith("result_matrix:")},
+                           "poly_cases_with_exactly_zero_partials": {"jacobian": zero_j, "hessian": zero_h},
+                           "info_only_lower_triangle_input": {k[25:]: v for k, v in cnt2.items()
+                                                              if k.startswith("info:lower_triangle_only:")},
                            "cholesky_option_runs": {k[6:]: v for k, v in cnt2.items() if k.startswith("agree:cholesky")},
                            "checks": total["checks"] + total2["checks"]}
     ctx.extra["bounds"] = {"tier_constants": t, "element_types": {"derivatives": ["Real64", "Real32"],
                                                                   "fast_vs_generic": ["Float64 vs Real64", "Float32 vs Real32"],
-                                                                  "jacobian_hessian": ["Float64", "Float32", "Real64", "Real32"]},
+                                                                  "jacobian_hessian": ["Float64", "Float32", "Real64", "Real32", "Int", "Int64", "Int32", "Int16", "Int8"]},
                            "activated": "all entries for n<=2, 4 entries (rotating with the case index) for n=3,4; symmetric pairs for SPD",
                            "orders": "1 everywhere; 2 for MdotM, determinant, inverse of n<=2, Hessian helper",
                            "tolerance": "values 1e-9 (1+|x|) kappa; derivatives 1e-9 (1+|d|) kappa^2 (order 2: kappa^3); "
                                         "32 bit: 1e-4; fast vs generic 16 u kappa (1+|x|)",
                            "polynomials": "maps R^3->R^3, three terms each, exponents 0..2, coefficients {-2,-1,1,2,3}, points in halves; "
                                           "each point in 7 derivative states (fresh, slice of an activated vector order 1/2, computed from "
-                                          "other variables order 1/2, same N reversed layout order 1, same N computed order 2)",
+                                          "other variables order 1/2, same N reversed layout order 1, same N computed order 2); coordinates "
+                                          "include 0 (exactly-zero partials); result matrix fresh / pre-filled / filled by a previous call; "
+                                          "integer result types hold the table truncated towards zero (printed by TLC)",
                            "cholesky_options": "plain, ForcePD, LDL, LDL+ForcePD x default/fresh/dirty buffers on every symmetric case "
                                                "(SPD family and the indefinite family sym n=3,4), Float64 vs generic and Float32 vs generic"}
     ctx.traces += total["cases"] + total2["cases"]
@@ -158,8 +173,10 @@ MANIFEST = {
             "ones (hence with the float run) and GetDerivative/GetHessian with the tables. Jacobian/Hessian helpers of all four "
             "dense matrix types are run on polynomial maps differentiated by TLC, with the evaluation point in seven derivative "
             "states (fresh, slice of a larger activated vector, computed from other variables, same number of variables in "
-            "another layout; orders 1 and 2): the helpers must return the derivatives with respect to their argument whatever it "
-            "carries. On every LinSolve case the DenseFloat64 Gauss-Jordan and, on every symmetric case (SPD and indefinite "
+            "another layout; orders 1 and 2) and the result matrix (of every element type the helpers exist for, plain float, "
+            "integer and Real) fresh, pre-filled with junk or filled by a previous call at another point, at points with "
+            "exactly-zero partial derivatives: the helpers must return the derivatives with respect to their argument whatever it "
+            "carries, and the result matrix must hold exactly the printed table whatever it held before. On every LinSolve case the DenseFloat64 Gauss-Jordan and, on every symmetric case (SPD and indefinite "
             "families), the float32/float64 Cholesky paths in every option combination (plain, ForcePD, LDL, LDL+ForcePD; "
             "default, fresh and dirty buffers) must agree with the generic path in outcome and to 16 u kappa. QR algorithm / eigensystem / SVD / Gram-Schmidt / Hessenberg derivative propagation is not covered here.",
     "note": "Trusted: TLC, CommunityModules Json, Rat.tla, the Go driver's comparison code. Partial with respect to the property's "
